@@ -130,13 +130,14 @@ class Controller:
 class CQueue:
     """queue.Queue as used by QueueScheduling"""
 
-    def __init__(self, ctl, _maxsize=0):
+    def __init__(self, ctl, maxsize=0):
         self.ctl = ctl
+        self.maxsize = maxsize        # as queue.Queue: put() blocks while a bounded queue is full
         self.items = []
         self.unfinished_tasks = 0
 
     def put(self, item):
-        self.ctl.yield_point('qput', lambda: True, item)
+        self.ctl.yield_point('qput', lambda: self.maxsize <= 0 or len(self.items) < self.maxsize, item)
         self.items.append(item)
         self.unfinished_tasks += 1
         self.ctl.step_done()
